@@ -214,78 +214,160 @@ func c01BlobBinding(c *Ctx, fn *ssa.Function, fi *FnInfo, sum *Summary, ta, outc
 	c.Evals += 2
 }
 
-// c01Metadata: required user metadata.
+// c01Metadata: required user metadata. Recursive path obligation: on every
+// non-skip success path of fn, either the required-metadata map is empty, or a
+// metadata verifier M (a function whose loop over that map passes the
+// per-entry gates against the signed payload's annotations) returned nil, or a
+// module callee that received the map satisfies the same obligation.
 func c01Metadata(c *Ctx, fn *ssa.Function, fi *FnInfo, payloadAlloc, pre string) {
 	w := c.W
-	// the metadata verifier: a module call that receives opts.UserMetadata
-	var metaCalls []*ssa.Call
+	rule := "path obligation (recursive through module calls): on every non-skip success path the required-metadata check over the signed payload's annotations returned nil, bypassable only by len(UserMetadata) == 0"
+	memo := map[string]bool{}
+	var verifiers []string
+	ok, wit, site := c01MetaHolds(c, fn, "param:opts.UserMetadata", map[string]string{payloadAlloc: "payload"}, true, 0, memo, &verifiers, pre)
+	c.Evals++
+	if ok {
+		c.OK(pre+"/metadata-gate", rule, site)
+	} else {
+		c.Bad(pre+"/metadata-gate", rule, site, "a non-skip success exit is reachable although the metadata check failed or was not made on that path (e.g. its result is stored unconditionally and overwrites an earlier failure, or an early return bypasses it)", wit...)
+	}
+	if len(verifiers) == 0 {
+		c.Bad(pre+"/metadata-loop", "per-entry gate: a loop over the required metadata with comma-ok lookup and value equality against the signed annotations", w.FnPos(fn), "no function on the call tree checks the required metadata entry by entry against the signed payload")
+	}
+}
+
+// c01MetaHolds decides the path obligation for fn. payloads maps descriptions
+// (in fn's frame) of values known to be the decoded signed payload
+// ("payload") or the verified signature.Payload / EnvelopeContent ("raw").
+func c01MetaHolds(c *Ctx, fn *ssa.Function, metaDesc string, payloads map[string]string, nonSkip bool, depth int, memo map[string]bool, verifiers *[]string, pre string) (bool, []string, string) {
+	w := c.W
+	fi := w.Info(fn)
+	c.SeenFn(fn.String())
+	site := w.FnPos(fn)
+	if depth > 4 {
+		return false, nil, site
+	}
+	cut := map[edgeKey]bool{}
+	if nonSkip {
+		cut = skipEdges(fi)
+	}
+	for e := range fi.edgesMatching(func(l string, _ *ssa.If, _ bool) bool {
+		return l == "LE(len("+metaDesc+"),const:0)" || l == "EQ(len("+metaDesc+"),const:0)" || l == "LT(len("+metaDesc+"),const:1)" || l == "EQ("+metaDesc+",nil)"
+	}) {
+		cut[e] = true
+	}
+	// the function itself may be a verifier (loop over metaDesc)
+	if annD, ok := c01FindPayloadAnnotations(w, fn, payloads); ok {
+		if c01MetadataLoop(c, fn, metaDesc, annD, pre, false) {
+			*verifiers = append(*verifiers, fnName(fn))
+			c01MetadataLoop(c, fn, metaDesc, annD, pre, true)
+			return true, nil, site
+		}
+	}
+	goodTail := map[*ssa.Call]bool{}
 	for _, ci := range allCalls(fn) {
 		call, ok := ci.(*ssa.Call)
 		if !ok {
 			continue
 		}
 		g := staticCallee(call)
-		if g == nil || !w.IsProductFn(g) {
+		if g == nil || g.Blocks == nil || !w.IsProductFn(g) || len(call.Call.Args) != len(g.Params) {
 			continue
 		}
-		for _, a := range call.Call.Args {
-			if desc(a) == "param:opts.UserMetadata" {
-				metaCalls = append(metaCalls, call)
+		mp := ""
+		sub := map[string]string{}
+		for i, a := range call.Call.Args {
+			d := desc(a)
+			if d == metaDesc {
+				mp = "param:" + g.Params[i].Name()
+			}
+			if kind, ok := payloads[d]; ok {
+				sub["param:"+g.Params[i].Name()] = kind
+			}
+			// the verified outcome / envelope content handed down
+			if strings.HasSuffix(d, ".EnvelopeContent.Payload") || strings.HasSuffix(d, ".EnvelopeContent") {
+				sub["param:"+g.Params[i].Name()] = "raw:" + strings.TrimPrefix(d[strings.LastIndex(d, ".EnvelopeContent"):], ".EnvelopeContent")
+			}
+			if namedOf(a.Type()) == "ngo.VerificationOutcome" {
+				sub["param:"+g.Params[i].Name()] = "outcome"
 			}
 		}
-	}
-	rule := "must-check: every non-skip success exit passes <metadata check>(payload, opts.UserMetadata) err == nil, bypassable only by len(opts.UserMetadata) == 0"
-	if len(metaCalls) == 0 {
-		// inline loop over opts.UserMetadata in the entry point itself
-		c01MetadataLoop(c, fn, "param:opts.UserMetadata", payloadAlloc+".TargetArtifact.Annotations", pre)
-		return
-	}
-	cut := skipEdges(fi)
-	for _, call := range metaCalls {
+		if mp == "" {
+			continue
+		}
+		k := fnName(g) + "|" + mp
+		res, done := memo[k]
+		if !done {
+			memo[k] = false
+			res, _, _ = c01MetaHolds(c, g, mp, sub, false, depth+1, memo, verifiers, pre)
+			memo[k] = res
+		}
+		if !res {
+			continue
+		}
+		site = w.InstrPos(call)
 		lbl := "EQ(" + descTailErr(call) + ",nil)"
 		for e := range fi.edgesMatching(func(l string, _ *ssa.If, _ bool) bool { return l == lbl }) {
 			cut[e] = true
 		}
+		goodTail[call] = true
 	}
-	for e := range fi.edgesMatching(func(l string, _ *ssa.If, _ bool) bool {
-		return l == "LE(len(param:opts.UserMetadata),const:0)" || l == "EQ(len(param:opts.UserMetadata),const:0)" || l == "LT(len(param:opts.UserMetadata),const:1)" ||
-			l == "EQ(param:opts.UserMetadata,nil)"
-	}) {
-		cut[e] = true
-	}
-	if path := fi.successWitness(Mode{Kind: mErr}, entryState(), cut); path != nil {
-		c.Bad(pre+"/metadata-gate", rule, w.InstrPos(metaCalls[0]), "a non-skip success exit is reachable although the metadata check failed or was not made (e.g. its result is stored unconditionally, overwriting an earlier failure)", path...)
-	} else {
-		c.OK(pre+"/metadata-gate", rule, w.InstrPos(metaCalls[0]))
-	}
-	c.Evals++
-	for _, call := range metaCalls {
-		g := staticCallee(call)
-		// map the callee's parameter names
-		var metaParam, annDesc string
-		for i, a := range call.Call.Args {
-			if desc(a) == "param:opts.UserMetadata" {
-				metaParam = "param:" + g.Params[i].Name()
-			}
-			if desc(a) == payloadAlloc {
-				annDesc = "param:" + g.Params[i].Name() + ".TargetArtifact.Annotations"
-			}
+	fi.ignoreTail = goodTail
+	wit := fi.successWitness(Mode{Kind: mErr}, entryState(), cut)
+	fi.ignoreTail = nil
+	return wit == nil, wit, site
+}
+
+// c01FindPayloadAnnotations returns the description, in fn's frame, of the
+// signed payload's annotations map: <payload>.TargetArtifact.Annotations where
+// <payload> is a known decoded payload, or a local envelope.Payload decoded in
+// fn (json.Unmarshal, error checked on every success path) from the verified
+// payload content.
+func c01FindPayloadAnnotations(w *World, fn *ssa.Function, payloads map[string]string) (string, bool) {
+	for d, kind := range payloads {
+		if kind == "payload" {
+			return d + ".TargetArtifact.Annotations", true
 		}
-		if annDesc == "" {
-			c.Bad(pre+"/metadata-payload", "provenance: the metadata check receives the decoded signed payload", w.InstrPos(call), "the call does not receive the payload decoded from the verified envelope ("+payloadAlloc+")")
+	}
+	s := w.Summarize(fn, Mode{Kind: mErr})
+	for l := range s.Checked {
+		m := reUnmarshalAny.FindStringSubmatch(l)
+		if m == nil {
 			continue
 		}
-		c.OK(pre+"/metadata-payload", "provenance: the metadata check receives the decoded signed payload", w.InstrPos(call))
-		c01MetadataLoop(c, g, metaParam, annDesc, pre)
+		src, dst := m[1], m[2]
+		for d, kind := range payloads {
+			switch {
+			case strings.HasPrefix(kind, "raw:") && src == d+strings.TrimPrefix(".Payload.Content", strings.TrimPrefix(kind, "raw:")):
+				return dst + ".TargetArtifact.Annotations", true
+			case kind == "outcome" && src == d+".EnvelopeContent.Payload.Content":
+				return dst + ".TargetArtifact.Annotations", true
+			}
+		}
 	}
+	return "", false
 }
+
+var reUnmarshalAny = regexp.MustCompile(`^EQ\(call:encoding/json\.Unmarshal\((.+),(alloc:ngo/internal/envelope\.Payload<[^>]*>)\)#err,nil\)$`)
 
 // c01MetadataLoop: in fn, a range loop over metaDesc whose every completed
 // iteration passes ok(annDesc[key]) and value equality; success only after the loop.
-func c01MetadataLoop(c *Ctx, fn *ssa.Function, metaDesc, annDesc, pre string) {
+func c01MetadataLoop(c *Ctx, fn *ssa.Function, metaDesc, annDesc, pre string, report bool) bool {
 	w := c.W
 	fi := w.Info(fn)
 	c.SeenFn(fn.String())
+	if !report {
+		// dry run: decide without recording obligations
+		saved := c.Obls
+		savedKeys := map[string]*Obligation{}
+		for k, v := range c.byKey {
+			savedKeys[k] = v
+		}
+		res := c01MetadataLoop(c, fn, metaDesc, annDesc, pre, true)
+		c.Obls = saved
+		c.byKey = savedKeys
+		return res
+	}
 	rule := "per-entry gate: the loop ranges over the caller's required metadata; every completed iteration passes the comma-ok lookup in the signed annotations and the value equality; no success exit is reachable from inside the body"
 	var loop *rangeLoop
 	for _, rl := range rangeLoops(fn) {
@@ -296,7 +378,7 @@ func c01MetadataLoop(c *Ctx, fn *ssa.Function, metaDesc, annDesc, pre string) {
 	}
 	if loop == nil {
 		c.Bad(pre+"/metadata-loop", rule, w.FnPos(fn), "no range loop over the required metadata map ("+metaDesc+") in "+fnName(fn))
-		return
+		return false
 	}
 	labels, ok := fi.mustPassBetween([]int{loop.Body.Index}, map[int]bool{loop.Header.Index: true})
 	c.Evals++
@@ -305,14 +387,14 @@ func c01MetadataLoop(c *Ctx, fn *ssa.Function, metaDesc, annDesc, pre string) {
 	lookup := annDesc + "[" + key + "]"
 	if !ok {
 		c.Unk(pre+"/metadata-loop", rule, w.InstrPos(loop.Next), "loop body never returns to the loop header: shape not recognised")
-		return
+		return false
 	}
 	_, okLookup := labels["T(ok("+lookup+"))"]
 	_, okEq1 := labels["EQ("+lookup+","+val+")"]
 	_, okEq2 := labels["EQ("+val+","+lookup+")"]
 	if !okLookup || !(okEq1 || okEq2) {
 		c.Bad(pre+"/metadata-loop", rule, w.InstrPos(loop.Next), "an iteration can complete without T(ok("+lookup+")) and EQ("+lookup+","+val+"); facts on every completed iteration: "+summarizeLabels(labels, 8))
-		return
+		return false
 	}
 	// no success exit from inside the body without going through the header
 	cut := map[edgeKey]bool{}
@@ -325,9 +407,10 @@ func c01MetadataLoop(c *Ctx, fn *ssa.Function, metaDesc, annDesc, pre string) {
 	}
 	if path := fi.successWitness(Mode{Kind: mErr}, []state{{loop.Body.Index, 0, -1}}, cut); path != nil {
 		c.Bad(pre+"/metadata-loop", rule, w.InstrPos(loop.Next), "a success exit is reachable from inside the loop body (early success before all pairs are checked)", path...)
-		return
+		return false
 	}
 	c.OK(pre+"/metadata-loop", rule, w.InstrPos(loop.Next))
+	return true
 }
 
 // c01Levels: integrity is enforce in every non-skip level and cannot be overridden.
